@@ -47,7 +47,7 @@ JudgeC11(t, k) ==
     ELSE AllOf(<<
         ChkD(t, "C11:dictionary-form-unfolds-every-decaying-daughter-per-position",
              o.dict = ToDict(c, rank), [exp |-> ToDict(c, rank), obs |-> o.dict]),
-        ChkD(t, "MACHINERY:spec-round-trip", FromDict(ToDict(c, rank)) = c, [c |-> c]),
+        ChkD(t, "MACHINERY:spec-round-trip", FromDict(ToDict(c, rank)) = [ok |-> TRUE, chain |-> c], [c |-> c]),
         ChkD(t, "C11:dictionary-and-back-equals-the-original",
              ChainOf(o.back) = c, [exp |-> c, obs |-> o.back]),
         Chk(t, "C11:second-dictionary-equals-the-first", o.dict2_same),
@@ -56,10 +56,10 @@ JudgeC11(t, k) ==
 (* C11: malformed dictionaries are refused, well-formed ones accepted *)
 JudgeC11D(t, k) ==
     LET want == FromDict(k.d) IN
-    IF want = "reject" THEN Chk(t, "C11:several-modes-or-conflicting-repeats-rejected", k.obs.rejected)
+    IF ~want.ok THEN Chk(t, "C11:several-modes-or-conflicting-repeats-rejected", k.obs.rejected)
     ELSE AllOf(<< ChkD(t, "C11:consistent-dictionary-accepted", ~k.obs.rejected, [error |-> k.obs.raised]),
-                  k.obs.rejected \/ ChkD(t, "C11:dictionary-read-into-the-chain-it-states", ChainOf(k.obs.back) = want,
-                                         [exp |-> want, obs |-> k.obs.back]) >>)
+                  k.obs.rejected \/ ChkD(t, "C11:dictionary-read-into-the-chain-it-states", ChainOf(k.obs.back) = want.chain,
+                                         [exp |-> want.chain, obs |-> k.obs.back]) >>)
 
 (* C11: final states built four ways *)
 JudgeC11F(t, k) ==
